@@ -38,7 +38,7 @@ CHECKS = {
  "C19": dict(
     level="model_checking", design="§5 C19",
     technique="TLA+ model of the include FileStack (Includes.tla) checked by TLC (safety + termination) over all include graphs, placements and named sequences; every TLC-generated project materialised with real paths/symlinks/-L options and run in-process and through the real binary, output validated by RunnerTrace.tla",
-    text="Homonyms (IncludesNames.tla): every project of <= 4 files over two source directories and the library directory in which one name exists twice, with every set of <= 2 (3) include statements and every sequence of named files -- an include names a NAME, resolved in the directory of the including file and then in the library; all projects go through the in-process pipeline, a sample through the binary. And: exhaustive over every include relation on 2 files (thorough: 3, sampled replay) plus a missing target, every placement of the files in the source or library directory and every sequence of named files; spellings (plain, ./, sub/../, symlink, library directory or library file, named via ./ or a symlink) are rotated over the edges. For each project the FileLibrary must hold every reachable file exactly once with the right named/included status, one error located at the include statement per unresolvable edge, the analysed definitions must be exactly those of the named files, included definitions must inform inter-procedural findings, and the run must terminate.",
+    text="Homonyms (IncludesNames.tla): every project of <= 4 files over two source directories and the library directory in which one name exists twice, with every set of <= 2 (3) include statements and every sequence of named files -- an include names a NAME, resolved in the directory of the including file and then in the library; all projects go through the in-process pipeline, a sample through the binary. And: exhaustive over every include relation on 2 files (thorough: 3, sampled replay) plus a missing target, every placement of the files in the source or library directory and every sequence of named files; spellings (plain, ./, sub/../, symlink, library directory or library file, named via ./ or a symlink) are rotated over the edges. For each project the FileLibrary must hold every reachable file exactly once with the right named/included status, one error located at the include statement per unresolvable edge, the analysed definitions must be exactly those of the named files, included definitions must inform inter-procedural findings, and the run must terminate. In a second rendering a leaf of the include graph that is reached at least twice (two include statements, or one and the command line) does not parse: it must still be read once and its error reported once.",
     note="Resolution rule of the model: same directory = local, target in the library directory = via -L, otherwise unresolvable; files identified by base name."),
  "C01": dict(
     level="exploration", design="§5 C01",
